@@ -87,25 +87,63 @@ def entry_gauge_rule(chk, src):
 
 
 def result_normalised_rule(chk, src):
-    """optimize_mps returns normalised, canonical states for one root and for several roots alike (the per-root truncation of the two-site update discards weight)"""
+    """abstract run of optimize_mps (sweeps stubbed) for one and for several roots: every returned state has been normalised, then brought to canonical form,
+    and carries the compress configuration the input had on entry"""
+    from ..syminterp import SymInterp, Sym, Blob, OpenSym
     fi = src.func(GS, "optimize_mps")
-    chains = {}
-    for st in ast.walk(fi.node):
-        if isinstance(st, ast.Assign) and unparse(st.targets[0]) == "res_mps":
-            v = st.value.elt if isinstance(st.value, ast.ListComp) else st.value
-            names, args, cur = [], [], v
-            while isinstance(cur, ast.Call) and isinstance(cur.func, ast.Attribute):
-                names.append(cur.func.attr)
-                args.append([unparse(a) for a in cur.args])
-                cur = cur.func.value
-            if names:
-                chains["several roots" if isinstance(st.value, ast.ListComp) else "one root"] = list(zip(reversed(names), reversed(args)))
-    want = [("normalize", ["'mps_only'"]), ("ensure_left_canonical", []), ("canonicalise", [])]
-    for k in ("one root", "several roots"):
-        got = chains.get(k)
-        chk.ob("result-normalised", f"optimize_mps result [{k}]", got == want, fi.where, got, want, line=fi.node.lineno,
-               detail=f"the state(s) returned for {k} must be normalised before they are re-canonicalised: after a truncating two-site update an eigenvector of the local problem "
-                      "is no longer a unit vector of the full space, so <psi|H|psi> of the returned state differs from the reported energy")
+    for nroots in (1, 3):
+        class Res(Sym):
+            def __init__(self, name):
+                super().__init__(name)
+                self.ops = []
+                self.compress_config = "sweep-config"
+
+            def normalize(self, kind):
+                self.ops.append(("normalize", kind))
+                return self
+
+            def ensure_left_canonical(self, *a):
+                self.ops.append(("ensure_left_canonical",))
+                return self
+
+            def ensure_right_canonical(self, *a):
+                self.ops.append(("ensure_right_canonical",))
+                return self
+
+            def canonicalise(self, *a):
+                self.ops.append(("canonicalise",))
+                return self
+        results = [Res(f"root{k}") for k in range(nroots)]
+        n_sweeps = []
+
+        def single_sweep(mps_, mpo_, environ_, omega_, percent_, idx_):
+            n_sweeps.append(percent_)
+            return [(-1.0 - 0.1 * len(n_sweeps), 2)], (results[0] if nroots == 1 else list(results)), mpo_
+        mps = Sym("mps", is_left_canonical=False, is_right_canonical=False, compress_config="config-on-entry",
+                  optimize_config=Sym("cfg", method="2site", e_rtol=1e-6, e_atol=1e-8, nroots=nroots, procedure=[[16, 0.2], [16, 0], [16, 0]]))
+        mps.__dict__["ensure_left_canonical"] = lambda *a: mps
+        mps.__dict__["ensure_right_canonical"] = lambda *a: mps
+        it = SymInterp(src, None, {"Environ": lambda *a, **k: "environ", "single_sweep": single_sweep, "logger": Blob("logger"), "StackedMpo": "StackedMpo", "CompressConfig": lambda *a, **k: "new-config",
+                                   "CompressCriteria": Sym("CompressCriteria", fixed="fixed"), "Mpo": Blob("Mpo"), "np": OpenSym("np", allclose=lambda a, b, rtol=0, atol=0: abs(a - b) <= atol + rtol * abs(b))})
+        it.builtins["isinstance"] = lambda x, t: isinstance(x, int) if t is int else False
+        out = it.call_function(fi, [mps, Sym("mpo"), None])
+        probs = []
+        if not (isinstance(out, tuple) and len(out) == 2):
+            probs.append(f"returns {out!r}")
+        else:
+            res = out[1] if isinstance(out[1], list) else [out[1]]
+            if [r for r in res] != results:
+                probs.append("the states of the last sweep are not what is returned")
+            for r in res:
+                names = [o[0] for o in getattr(r, "ops", [])]
+                if ("normalize", "mps_only") not in getattr(r, "ops", []) or "canonicalise" not in names or names.index("normalize") > names.index("canonicalise"):
+                    probs.append(f"{r!r}: {getattr(r, 'ops', None)}")
+                if getattr(r, "compress_config", None) != "config-on-entry":
+                    probs.append(f"{r!r}: compress_config = {getattr(r, 'compress_config', None)!r}")
+        chk.ob("result-normalised", f"optimize_mps result [{'one root' if nroots == 1 else 'several roots'}]", not probs, fi.where, probs[:2] or "normalised, canonical, configuration restored",
+               "normalize('mps_only') before canonicalise(); compress_config of the input restored", line=fi.node.lineno,
+               detail="the state(s) returned must be normalised before they are re-canonicalised: after a truncating two-site update an eigenvector of the local problem is no longer a unit "
+                      "vector of the full space, so <psi|H|psi> of the returned state differs from the reported energy: " + (probs[0] if probs else ""))
 
 
 def run(chk):
